@@ -375,6 +375,39 @@ theorem parameters_eq {α : Type} (d : Dict α) (hd : WellKeyed d) : parameters 
   | nil => rfl
   | cons x xs ih => simp [List.zip_cons_cons, ih]
 
+/-! ### parameter-update histories (`set_aberrations`) -/
+
+/-- `set_aberrations` keeps the dict well keyed, whatever the history of updates. -/
+theorem setAberrations_wellKeyed {α : Type} (neg : α → α) (items : List (String × α)) :
+    ∀ (d d' : Dict α), WellKeyed d → setAberrations neg d items = .ok d' → WellKeyed d' := by
+  induction items with
+  | nil => intro d d' hd h; simp [setAberrations, pure, Except.pure] at h; rw [← h]; exact hd
+  | cons kv rest ih =>
+    intro d d' hd h
+    simp only [setAberrations, List.foldlM_cons] at h
+    cases h1 : setAttr neg d kv.1 kv.2 with
+    | error e => simp [h1, bind, Except.bind] at h
+    | ok d1 =>
+      simp only [h1, bind, Except.bind] at h
+      exact ih d1 d' (setAttr_wellKeyed neg d d1 kv.1 kv.2 hd h1) h
+
+/-- Updating an existing object: the last value written for a coefficient — zero included, whatever was stored before — is the
+value read back, through the alias and through the symbol. -/
+theorem setAberrations_overwrites {α : Type} (neg : α → α) (z : α) (d : Dict α) (v : α) :
+    ∀ kv ∈ polarAliases, kv.1 ≠ "defocus" →
+      setAberrations neg d [(kv.1, v)] = .ok (dictSet d kv.2 v) ∧ setAberrations neg d [(kv.2, v)] = .ok (dictSet d kv.2 v)
+        ∧ getAttr neg z (dictSet d kv.2 v) kv.2 = .ok v ∧ getAttr neg z (dictSet d kv.2 v) kv.1 = .ok v := by
+  intro kv hkv hne
+  obtain ⟨h1, h2, h3, h4⟩ := aliases_address_same_coefficient neg z d v kv hkv hne
+  refine ⟨?_, ?_, h4, h3⟩
+  · simp [setAberrations, h1, bind, Except.bind, pure, Except.pure]
+  · simp [setAberrations, h2, bind, Except.bind, pure, Except.pure]
+
+/-- a later update of the same coefficient replaces an earlier one (non-zero then zero, or any other pair) -/
+theorem dictSet_dictSet {α : Type} (d : Dict α) (k : String) (v w : α) (z : α) :
+    ((dictSet (dictSet d k v) k w).lookup k).getD z = w := by
+  rw [lookup_dictSet_self]; rfl
+
 /-- a record built from a name-indexed function returns, under each field name, that function's value -/
 theorem coeff_ofList {α : Type} (z : α) (g : String → α) :
     ∀ s ∈ PolarCoeffs.fieldNames, coeff z (PolarCoeffs.ofList z (PolarCoeffs.fieldNames.map g)) s = g s := by
